@@ -13,14 +13,17 @@ package nodenumaresource
 //   reserve+unreserve(x) = a scheduling attempt that fails after Reserve (nothing persisted, x stays pending)
 // of four identities (pods with CPU-bind / exclusive policies, NUMA-policy pods with per-NUMA amounts, plain pods, a
 // Reservation) the cut is taken after every event.
-// Restart path: a FRESH topology options manager (fed the same NodeResourceTopology through the plugin's handler) and a
-// FRESH resource manager behind a fresh podEventHandler (reservations through the plugin's ReservationToPod wrapper)
-// receive ONLY the surviving persisted objects: every permutation of their add events; plus, for every permutation,
-// every placement of one duplicate add and of one update event carrying the same allocation.
+// Restart path: a FRESH topology options manager (holding what the plugin's own handler makes of the node's
+// NodeResourceTopology object) and a FRESH resource manager behind a fresh podEventHandler (reservations through the
+// plugin's ReservationToPod wrapper) receive ONLY the surviving persisted objects: every permutation of their add
+// events; plus, for every permutation, every placement of one duplicate add and of one update event carrying the same
+// allocation. A second part (numa-topology-order) also permutes the NodeResourceTopology add event among them.
 // Oracle (from the statement):
 //   (1) for every delivery sequence the canonical rendering of the rebuilt NodeAllocation (pods -> CPU set, exclusive
 //       policy, per-NUMA amounts; per-CPU ref counts and topology fields; per-CPU exclusive marks; per-NUMA allocated
-//       amounts; single/shared NUMA status) equals the live one;
+//       amounts; single/shared NUMA status) equals the live one, judged section by section (one violation class per
+//       kind of difference). Only exception, argued in judge(): under a sharing limit > 1 the live exclusive mark of a
+//       CPU is last-writer-wins, there the rebuilt mark must be the policy of a current holder;
 //   (2) corollary, against the harness' own reference (the allocation the allocator returned at Reserve, captured
 //       before it was encoded): every CPU held by as many live objects as the sharing limit is not available after the
 //       restart, available NUMA amounts are at most capacity minus the held amounts, and the available CPU sets / NUMA
@@ -852,10 +855,10 @@ func TestVerifC19Numa(t *testing.T) {
 		res.Rule = "every sequence of {bind, echo, delete, terminate, reserve+unreserve} x 4 identities up to the depth bound on the real plugin (states merged by identity states + persisted annotations + complete live ledger); " +
 			"at every cut: every permutation of the surviving objects' add events into fresh managers, plus every placement of one duplicate add / one same-allocation update; distinct = distinct live states"
 		res.Assumptions = []string{
-			"one node; the NodeResourceTopology (CPU topology, reserved CPUs, NUMA zone resources) and the sharing limit are the same before and after the restart and are delivered to the fresh topology manager BEFORE the pod events (the other order is judged in part numa-topology-order)",
+			"one node; the NodeResourceTopology (CPU topology, reserved CPUs, NUMA zone resources, kubelet policies) and the sharing limit are the same before and after the restart and are known to the fresh topology manager BEFORE the pod events (the other orders are judged in part numa-topology-order)",
 			"the per-history plugin is a copy of the fixture's real Plugin (same args, scorers, framework handle) with fresh managers; the handle's NUMA admission delegates to a topology manager whose only hint provider is that copy",
 			"no pods allocated out of a reservation's CPUs (reservation restore state empty), no CPU amplification ratio, no preemption state",
-			"the exclusive mark of a CPU shared (sharing limit 2) by pods with different exclusive policies is last-writer-wins in the live scheduler and therefore only a diagnostic",
+			"under a sharing limit of 2 (a value only out-of-tree plugins set) the live exclusive mark of a CPU is the policy of the last pod recorded on it, even one that is gone; equality of that mark is a diagnostic, judged is that the rebuilt mark is the policy of a current holder",
 		}
 		var specs []string
 		for _, p := range cfg.Pods {
